@@ -385,28 +385,40 @@ def _pick_failure(sub: str, spec: dict, failures: list) -> Optional[tuple]:
 
 
 _SEEN_FAILING: dict = {}
+_KNOWN_ONLY: dict = {}      # sub -> {"cases": n, "nontrivial": set of digests, "classes": Counter}
 
 
-def _finish(sub: str, spec: dict, facts: dict, nontrivial: bool, classes: list) -> dict:
+def _finish(sub: str, spec: dict, facts: dict, classes: list, nontrivial) -> dict:
+    """ runs the case; `nontrivial` is a bool or a function of the worker's class labels """
     # one observed disagreement is a counterexample for good: a case that failed once in this process fails the
     # same way when Hypothesis replays it while shrinking (layout-dependent results need not differ every time)
     key = sub + runner.digest(spec)
     info: dict = {}
     error = None
     failure = _SEEN_FAILING.get(key)
-    if failure is None:
+    first_sight = failure is None
+    if first_sight:
         failures, info, error = _run_case(sub, spec, facts)
         failure = _pick_failure(sub, spec, failures)
         if failure is not None:
             if len(_SEEN_FAILING) > 50000:
                 _SEEN_FAILING.clear()
             _SEEN_FAILING[key] = failure
-    if failure is not None:
-        raise Violation(*failure)       # the only raise: Hypothesis tells failures apart by the raising line
-    classes = list(classes) + list(info.get("classes") or [])
+    worker_classes = list(info.get("classes") or [])
+    classes = list(classes) + worker_classes
     if error is not None:
         classes.append(f"raised_consistently_{error['type']}")
-    return {"nontrivial": nontrivial, "classes": classes, "worker_classes": list(info.get("classes") or [])}
+    is_nontrivial = bool(nontrivial(worker_classes)) if callable(nontrivial) else bool(nontrivial)
+    if failure is not None:
+        if first_sight and any(sig(sub, spec, *failure) for sig in SIGNATURES.values()):
+            # judged on every clause, nothing but known findings: the runner counts such a case as excluded only
+            stats = _KNOWN_ONLY.setdefault(sub, {"cases": 0, "nontrivial": set(), "classes": collections.Counter()})
+            stats["cases"] += 1
+            stats["classes"].update(classes)
+            if is_nontrivial:
+                stats["nontrivial"].add(key)
+        raise Violation(*failure)       # the only raise: Hypothesis tells failures apart by the raising line
+    return {"nontrivial": is_nontrivial, "classes": classes}
 
 
 # =========================================================================== subcheck bodies (facts are pure functions of the spec)
@@ -439,7 +451,7 @@ def check_refine(spec: dict) -> dict:
         classes.append("score_tie")
     if len({raw[5] for raw in spec["hits"]}) > 1:
         classes.append("two_proteins")
-    return _finish("refine", spec, facts, bool(facts["equal_start_pairs"]) or facts["equal_scores"], classes)
+    return _finish("refine", spec, facts, classes, bool(facts["equal_start_pairs"]) or facts["equal_scores"])
 
 
 def _hmmer_facts(spec: dict) -> dict:
@@ -459,7 +471,7 @@ def check_hmmer(spec: dict) -> dict:
     facts = _hmmer_facts(spec)
     classes = [f"limit_{spec['limit']}", f"n_{min(len(spec['hits']), 7)}"]
     classes.extend(name for name, value in facts.items() if value)
-    return _finish("hmmer", spec, facts, facts["equal_starts"] or facts["equal_normalised_scores"], classes)
+    return _finish("hmmer", spec, facts, classes, facts["equal_starts"] or facts["equal_normalised_scores"])
 
 
 def _overlap(one: list, two: list) -> int:
@@ -504,7 +516,7 @@ def check_filter(spec: dict) -> dict:
     facts = _filter_facts(spec)
     classes = [f"n_{min(len(spec['hits']), 8)}"]
     classes.extend(name for name, value in facts.items() if value)
-    return _finish("filter", spec, facts, any(facts.values()), classes)
+    return _finish("filter", spec, facts, classes, any(facts.values()))
 
 
 NONTRIVIAL_AREA_CLASSES = {"equal_coordinate_protoclusters", "equal_coordinate_candidates", "unordered_protoclusters",
@@ -525,9 +537,7 @@ def check_detect(spec: dict) -> dict:
         classes.append("superiors")
     if any(rule.get("extenders") for rule in spec["rules"]):
         classes.append("extenders")
-    result = _finish("detect", spec, facts, False, classes)
-    result["nontrivial"] = bool(NONTRIVIAL_AREA_CLASSES & set(result["worker_classes"]))
-    return result
+    return _finish("detect", spec, facts, classes, lambda found: bool(NONTRIVIAL_AREA_CLASSES & set(found)))
 
 
 def _span(loc: dict) -> tuple:
@@ -554,10 +564,8 @@ def check_areas(spec: dict) -> dict:
         classes.append("spec_equal_products")
     if any(len(p["loc"]["parts"]) > 1 for p in spec["protoclusters"]):
         classes.append("spec_origin_crossing")
-    result = _finish("areas", spec, facts, False, classes)
-    result["nontrivial"] = bool(facts["equal_coordinate_protoclusters"] or facts["equal_products"]
-                                or NONTRIVIAL_AREA_CLASSES & set(result["worker_classes"]))
-    return result
+    tied = bool(facts["equal_coordinate_protoclusters"] or facts["equal_products"])
+    return _finish("areas", spec, facts, classes, lambda found: tied or bool(NONTRIVIAL_AREA_CLASSES & set(found)))
 
 
 SUBCHECKS = {
@@ -691,6 +699,30 @@ def _candidate_protocluster_order(sub, spec, clause, detail) -> bool:
     return (detail.get("where"), detail.get("kind")) in _CANDIDATE_ORDER.get(clause, ())
 
 
+_CANDIDATE_QUALIFIER = re.compile(r"^records\[\]\.features\[\]\.qualifiers\.(candidate_cluster_number|kind|product|"
+                                  r"protoclusters|detection_rules|candidate_cluster_numbers)(\[\])?$")
+
+
+@_sig
+def _equal_location_candidate_order(sub, spec, clause, detail) -> bool:
+    """ create_candidates_from_protoclusters appends the single candidates while iterating set(unassigned) and
+        then sorts with a comparison that ties on equal locations: the record holds two candidate clusters that
+        the comparison does not order AND the same areas are formed AND only the order / numbering of candidate
+        clusters (and its renderings) differs """
+    if sub not in ("detect", "areas") or "unordered_candidates" not in (detail.get("result_classes") or []):
+        return False
+    if {"areas_sets", "protoclusters"} & set(detail.get("upstream") or []):
+        return False
+    where = detail.get("where", "")
+    if clause == "areas_differs":
+        return where.startswith("candidates[].") or where == "regions[].candidates"
+    if clause == "genbank_differs":
+        return where.startswith("cand_cluster./") or where == "region./candidate_cluster_numbers"
+    if clause == "results_json_differs":
+        return bool(_CANDIDATE_QUALIFIER.match(where)) or where.startswith("records[].areas[].candidates[]")
+    return False
+
+
 @_sig
 def _region_unique_protocluster_order(sub, spec, clause, detail) -> bool:
     """ Region.get_unique_protoclusters sorts a set of identity-hashed protoclusters without the documented
@@ -699,6 +731,8 @@ def _region_unique_protocluster_order(sub, spec, clause, detail) -> bool:
         (the 'areas' section of the results JSON is numbered by that order) """
     if sub not in ("detect", "areas") or not _equal_coordinate_case(detail):
         return False
+    if "unordered_in_plain_region" not in (detail.get("result_classes") or []):
+        return False        # regions crossing the origin have the product tie-break
     where, kind = detail.get("where", ""), detail.get("kind")
     if clause == "areas_differs":
         return kind == "list_order" and where in ("regions[].unique_protoclusters",
@@ -945,6 +979,13 @@ def areas_specs(draw) -> dict:
             end = max(g["loc"]["parts"][0][1] for g in genes[first:last + 1])
             core = {"parts": [[start, end]], "strand": 1}
             loc = {"parts": [[max(0, start - neighbourhood), min(length, end + neighbourhood)]], "strand": 1}
+        # no exact twins: two protoclusters of one product never share a location (one rule gives disjoint cores)
+        taken = {p["product"] for p in protos if p["loc"]["parts"] == loc["parts"]}
+        if product in taken:
+            free = [name for name in PRODUCTS if name not in taken]
+            if not free:
+                continue
+            product = free[0]
         protos.append({"core": core, "loc": loc, "product": product, "category": f"cat_{product}", "tool": tool,
                        "cutoff": draw(st.sampled_from([10, 50, 200])), "neighbourhood": neighbourhood})
     del first_start
@@ -988,11 +1029,15 @@ def run(ctx) -> None:
     _POOL_SEEDS = seeds
     try:
         # shards=1: the pool of children is the parallelism; nothing is forked while the pipes are open
-        ctx.hyp("refine", refine_specs(), max_examples=ctx.pick(700, 12000), shards=1)
-        ctx.hyp("hmmer", hmmer_specs(), max_examples=ctx.pick(300, 5000), shards=1)
-        ctx.hyp("filter", filter_specs(), max_examples=ctx.pick(400, 6000), shards=1)
-        ctx.hyp("detect", detect_specs(), max_examples=ctx.pick(300, 5000), shards=1)
-        ctx.hyp("areas", areas_specs(), max_examples=ctx.pick(300, 5000), shards=1)
+        ctx.hyp("refine", refine_specs(), max_examples=ctx.pick(500, 12000), shards=1)
+        ctx.hyp("hmmer", hmmer_specs(), max_examples=ctx.pick(200, 4000), shards=1)
+        ctx.hyp("filter", filter_specs(), max_examples=ctx.pick(300, 6000), shards=1)
+        ctx.hyp("detect", detect_specs(), max_examples=ctx.pick(220, 5000), shards=1)
+        ctx.hyp("areas", areas_specs(), max_examples=ctx.pick(220, 5000), shards=1)
+        ctx.extra["cases_showing_only_known_findings"] = {
+            sub: {"cases": stats["cases"], "distinct_nontrivial": len(stats["nontrivial"]),
+                  "classes": dict(sorted(stats["classes"].items()))}
+            for sub, stats in _KNOWN_ONLY.items()}
         ctx.extra["bounds"] = {
             "hash_seeds": seeds,
             "runs_per_case": len(seeds) * REPEATS,
